@@ -65,7 +65,12 @@ def pattern_from(rng, d, var_prob=0.3, drop_prob=0.3, mutate_prob=0.06, vars_=No
     def var():
         if used and rng.random() < repeat_prob:
             return rng.choice(used)
-        v = rng.choice(vars_)
+        free = [v for v in vars_ if v not in used]
+        if repeat_prob == 0:
+            # histories must not depend on Go's map iteration order: no variable occurs twice
+            v = rng.choice(free) if free else "?v%d" % len(used)
+        else:
+            v = rng.choice(vars_)
         used.append(v)
         return v
     def go(x, top=False):
